@@ -22,6 +22,18 @@ use crate::weight_cache::WeightCache;
 #[cfg(feature = "onnx_format")]
 mod external_data;
 
+/// Verification hook (only with `--cfg rten_verif`): re-export of the private
+/// external data loaders for `crate::verif`.
+#[cfg(all(rten_verif, feature = "onnx_format"))]
+pub(crate) mod verif_external_data {
+    #[cfg(feature = "mmap")]
+    pub use super::external_data::MmapLoader;
+    pub use super::external_data::{
+        DataLoader, DataLocation, DataSlice, ExternalDataError, FileLoader, MemLoader,
+        verif_is_allowed_external_data_path,
+    };
+}
+
 mod file_type;
 mod load_error;
 mod metadata;
